@@ -66,7 +66,9 @@ inductive Msg where
 /-- AEAD ciphertext term. `adOk` says whether it is presented with the associated data it was
 sealed with (the packet's own IV ‖ header). -/
 inductive Ct where
-  | enc (key : Key) (nonce : Nat) (pt : Msg) (adOk : Bool)
+  /-- `ctr` is the 4-byte big-endian prefix of the 12-byte nonce (the session's message counter
+  for packets made by `encrypt_message`); `nonce` names the whole 12 bytes. -/
+  | enc (key : Key) (nonce : Nat) (ctr : Nat) (pt : Msg) (adOk : Bool)
   | garbage
   deriving Repr, DecidableEq, Inhabited
 
@@ -212,6 +214,11 @@ def freshRid (c : Cfg) : M Nat := do
   setS { s with fresh := { s.fresh with rid := s.fresh.rid + 1 } }
   return mkName c (s.fresh.rid + 1)
 
+/-- `for x in l do f x` as a structural recursion (easier to reason about than `forIn`). -/
+def forEach {α : Type} : List α → (α → M Unit) → M Unit
+  | [], _ => pure ()
+  | x :: xs, f => do f x; forEach xs f
+
 /-! ### exemption map -/
 
 def addExpected (a : Addr) : M Unit := modS fun s =>
@@ -307,13 +314,13 @@ def send (na : NA) (p : Pkt) : M Unit := emit (.send na p)
 def encryptMessage (c : Cfg) (sess : Session) (pt : Msg) : M (Session × Pkt) := do
   let n ← freshNonce c
   let sess' := { sess with counter := sess.counter + 1 }
-  return (sess', .message c.localId n (.enc sess.keys.enc n pt true))
+  return (sess', .message c.localId n (.enc sess.keys.enc n sess'.counter pt true))
 
 /-- `Session::decrypt_message` (tries the current keys, then the old keys and rotates). -/
 def decryptMessage (sess : Session) (nonce : Nat) (ct : Ct) : Session × Option Msg :=
   let tryKey (k : Key) : Option Msg :=
     match ct with
-    | .enc key n pt adOk => if key == k && n == nonce && adOk then some pt else none
+    | .enc key n _ pt adOk => if key == k && n == nonce && adOk then some pt else none
     | .garbage => none
   match tryKey sess.keys.dec with
   | some m => (sess, some m)
@@ -332,9 +339,8 @@ def isAwaitingSession (c : Cfg) (na : NA) : M Bool := do
     let s ← getS
     return (s.active.filter (fun call => callNA call == na)).any (·.initiating)
 
-mutual
 /-- `send_request`. -/
-partial def sendRequest (c : Cfg) (contact : Contact) (rid : Nat) (internal : Bool) (body : Nat) :
+def sendRequest (c : Cfg) (contact : Contact) (rid : Nat) (internal : Bool) (body : Nat) :
     M (Option Err) := do
   let na := contact.na
   if c.listen.contains na.addr then return some .selfRequest
@@ -364,17 +370,16 @@ partial def sendRequest (c : Cfg) (contact : Contact) (rid : Nat) (internal : Bo
   return none
 
 /-- `send_pending_requests`. -/
-partial def sendPendingRequests (c : Cfg) (na : NA) : M Unit := do
+def sendPendingRequests (c : Cfg) (na : NA) : M Unit := do
   let s ← getS
   let prs := match s.pending.find? (·.1 == na) with
     | some e => e.2
     | none => []
   setS { s with pending := s.pending.filter (·.1 != na) }
-  for pr in prs do
+  forEach prs fun pr => do
     match ← sendRequest c pr.contact pr.rid pr.internal pr.body with
     | some e => if !pr.internal then emit (.failed pr.rid e)
     | none => pure ()
-end
 
 /-- `fail_session`. -/
 def failSession (c : Cfg) (na : NA) (e : Err) (removeSession : Bool) : M Unit := do
@@ -385,11 +390,11 @@ def failSession (c : Cfg) (na : NA) (e : Err) (removeSession : Bool) : M Unit :=
   match s.pending.find? (·.1 == na) with
   | some ent =>
     setS { s with pending := s.pending.filter (·.1 != na) }
-    for pr in ent.2 do
+    forEach ent.2 fun pr => do
       if !pr.internal then emit (.failed pr.rid e)
   | none => pure ()
   let calls ← activeRemoveRequests na
-  for call in calls do
+  forEach calls fun call => do
     if !call.internal then emit (.failed call.rid e)
     removeExpected na.addr
 
@@ -407,6 +412,13 @@ def handleRequestTimeout (c : Cfg) (call : Call) : M Unit := do
     send (callNA call) call.pkt
     activeInsert c { call with retries := call.retries + 1 }
 
+/-- The re-encryption loop of `replay_active_requests`. -/
+def reencryptAll (c : Cfg) : List Call → Session → List (Nat × Pkt) → M (Session × List (Nat × Pkt))
+  | [], sess, acc => pure (sess, acc)
+  | call :: rest, sess, acc => do
+    let (sess', p) ← encryptMessage c sess (.request call.rid call.body)
+    reencryptAll c rest sess' (acc ++ [(call.pkt.nonce, p)])
+
 /-- `replay_active_requests`. -/
 def replayActiveRequests (c : Cfg) (na : NA) (skipNonce : Option Nat) : M Unit := do
   match ← sessGetMut c na with
@@ -415,14 +427,9 @@ def replayActiveRequests (c : Cfg) (na : NA) (skipNonce : Option Nat) : M Unit :
     let s ← getS
     let calls := (s.active.filter (fun call => callNA call == na)).filter
       (fun call => match skipNonce with | some n => call.pkt.nonce != n | none => true)
-    let mut sess := sess0
-    let mut packets : List (Nat × Pkt) := []
-    for call in calls do
-      let (sess', p) ← encryptMessage c sess (.request call.rid call.body)
-      sess := sess'
-      packets := packets ++ [(call.pkt.nonce, p)]
+    let (sess, packets) ← reencryptAll c calls sess0 []
     sessPut na sess
-    for (oldNonce, p) in packets do
+    forEach packets fun (oldNonce, p) => do
       -- `update_packet`: the nonce mapping is re-inserted (fresh timer), the call keeps its place
       modS fun s =>
         let upd : Call → Call := fun call =>
@@ -483,7 +490,7 @@ def handleChallenge (c : Cfg) (src : Addr) (nonce cd enrSeq : Nat) : M Unit := d
       dec := { eph := eph, cd := cd, ini := c.localId, rcp := na.id, toRcp := false } }
     let sig : Sig := { signer := c.localId, cd := cd, eph := eph, dst := na.id }
     let authPkt : Pkt := .handshake c.localId hsNonce sig eph updatedRec
-      (.enc keys.enc hsNonce (.request call0.rid call0.body) true)
+      (.enc keys.enc hsNonce 0 (.request call0.rid call0.body) true)
     let mut sess : Session := { keys := keys }
     match call0.contact.record with
     | some r =>
